@@ -178,12 +178,17 @@ impl<K: Eq, V> HashMap<K, V> {
         }
         self.n = 0;
     }
+    #[deprecated(note = "vmodel-order-site: iteration over a hash map (order depends on the hash seed)")]
     pub fn iter(&self) -> Iter<'_, K, V> {
         Iter { inner: self.slots.iter() }
     }
+    #[deprecated(note = "vmodel-order-site: iteration over a hash map (order depends on the hash seed)")]
+    #[allow(deprecated)]
     pub fn keys(&self) -> Keys<'_, K, V> {
         Keys { inner: self.iter() }
     }
+    #[deprecated(note = "vmodel-order-site: iteration over a hash map (order depends on the hash seed)")]
+    #[allow(deprecated)]
     pub fn values(&self) -> Values<'_, K, V> {
         Values { inner: self.iter() }
     }
@@ -267,8 +272,11 @@ impl<K: Eq, V> VecHashMap<K, V> {
     pub fn len(&self) -> usize { self.items.len() }
     pub fn is_empty(&self) -> bool { self.items.is_empty() }
     pub fn clear(&mut self) { self.items.clear() }
+    #[deprecated(note = "vmodel-order-site: iteration over a hash map (order depends on the hash seed)")]
     pub fn iter(&self) -> impl Iterator<Item = (&K, &V)> { self.items.iter().map(|(k, v)| (k, v)) }
+    #[deprecated(note = "vmodel-order-site: iteration over a hash map (order depends on the hash seed)")]
     pub fn keys(&self) -> impl Iterator<Item = &K> { self.items.iter().map(|(k, _)| k) }
+    #[deprecated(note = "vmodel-order-site: iteration over a hash map (order depends on the hash seed)")]
     pub fn values(&self) -> VecValues<'_, K, V> { fn f<'a, K, V>(kv: &'a (K, V)) -> &'a V { &kv.1 } self.items.iter().map(f::<K, V> as fn(&(K, V)) -> &V) }
     pub fn entry(&mut self, k: K) -> VecEntry<'_, K, V> { let p = self.pos(&k); VecEntry { map: self, key: k, pos: p } }
 }
